@@ -117,9 +117,9 @@ PROPS["C10"] = {
 
 PROPS["C16"] = {
     "level": "exploration",
-    "technique": "model-based property testing (rapid) at the commit-log level + concurrent racing publishers against an invariant over acks and the final log",
+    "technique": "model-based property testing (rapid) at the commit-log level + concurrent racing publishers against an invariant over acks and the final log + sequential model-based histories through every server of a started cluster",
     "level_text": "(a) commit-log level: sequences of single-message appends with optimistic concurrency control and expected offsets next / next-1 / next+1 / 0 / huge / waived (-1), with reopens and reader probes, against the rule 'stored iff waived or equal to the next offset; otherwise ErrIncorrectOffset and the log (contents, offsets, file sizes) unchanged'",
-    "level_note": 'the concurrent (racing publishers through the API) part is covered by unit C16b when present; batches of one message as the leader loop guarantees with OCC',
+    "level_note": 'the concurrent (racing publishers through the API) part is covered by unit C16b; unit C16c runs one publisher at a time on a started 3-server cluster (replication factor 1-3) and sends each RPC to the partition leader, a follower or a server without a replica: a publish naming the offset it will be assigned (or waiving the check) must be stored there, any other refused with the log unchanged; batches of one message as the leader loop guarantees with OCC',
     "rule": 'rapid draws 1-30 steps: occ-append with an expected-offset class, reopen, probe; segment size from {1,150,300,1024,default}. Non-trivial = a rejected append followed by at least two accepted ones.',
     "assumptions": TRUST,
     "units": [
@@ -127,6 +127,9 @@ PROPS["C16"] = {
          "quick": {"shards": 8, "checks": 1500}, "thorough": {"shards": 16, "checks": 20000, "timeout": 3000}},
         {"name": "C16b", "pkg": "server", "test": "TestVerifC16b",
          "quick": {"shards": 4, "checks": 40}, "thorough": {"shards": 16, "checks": 600, "timeout": 3000}},
+        # started 3-server cluster: one publisher at a time, the RPC goes to the partition leader, a follower or a non-replica
+        {"name": "C16c", "pkg": "server", "test": "TestVerifC16c",
+         "quick": {"shards": 4, "checks": 25}, "thorough": {"shards": 16, "checks": 300, "timeout": 3000}},
     ],
 }
 PROPS["C03"] = {
@@ -148,7 +151,7 @@ PROPS["C17"] = {
     "level": "exploration",
     "technique": "property-based testing (rapid): round-trip, no-plaintext and single-byte tamper / wrong-key metamorphic relations",
     "level_text": 'round trip Read(Seal(v))=v for empty/short/large/all-zero/patterned values under 16- and 32-byte master keys; the stored form never contains a >=8 byte value; two seals differ; every single-byte corruption (all positions for small values, region-targeted otherwise: length byte, wrapped key, nonce, ciphertext+tag; 4 replacement values) and every different master key makes Read return an error - returning data or panicking is a violation',
-    "level_note": 'package level (LocalEncryptionHandler); a chance occurrence of an >=8 byte plaintext in ciphertext has probability < 2^-50; Seal uses crypto/rand so replays are not byte-identical, the oracle does not depend on the bytes',
+    "level_note": 'package level (LocalEncryptionHandler) plus unit C17b on a started server: values published one by one or as a burst to an encrypted stream - in a third of the cases the stream is paused in between and resumed by the next publish, which recreates the partition - must not appear in the segment files and must reach a subscriber unchanged; a chance occurrence of an >=8 byte plaintext in ciphertext has probability < 2^-50; Seal uses crypto/rand so replays are not byte-identical, the oracle does not depend on the bytes',
     "rule": 'rapid draws kind (roundtrip/wrongkey/tamper), value class, printable master keys, tamper region/position/replacement or all positions. Non-trivial = tamper or wrongkey, or a roundtrip with a value of >=8 bytes.',
     "assumptions": TRUST,
     "units": [
@@ -163,7 +166,7 @@ PROPS["C19"] = {
     "level": "exploration",
     "technique": "property-based testing (rapid): disable-route x value products against an effective-setting model, recorded HTTP transport, payload key whitelist + marker taint check",
     "level_text": '(a) collector level: http.DefaultTransport replaced by a recorder; Enabled=false => zero requests over many intervals and restarts; enabled => every request goes to the documented endpoint, its JSON keys are a subset of the documented whitelist, no marker/data-dir string in body or headers, nothing after Stop; (cfg) every route of disabling telemetry - config file true/false/absent x LIFTBRIDGE_TELEMETRY_ENABLED unset/false/0/FALSE/f/true/1 x with/without file - against the precedence model env > file > default',
-    "level_note": 'the server-level wiring (Config.Telemetry.Enabled=false => no collector) is two lines in Server.Start and is covered by unit C19b when present',
+    "level_note": 'unit C19b starts a whole server with telemetry on or off (off: with telemetry intervals 1, 0, -1 and 86400 s) with streams, messages and NATS credentials that carry a marker, and watches the recorded transport: no request when off (for 2 s if the server created a collector all the same - on the present code it does not), only documented fields and no marker when on',
     "rule": 'rapid draws collector configs (enabled, interval 1ms-24h, marker in the data dir, waits, restart) and configuration cases. Non-trivial = a disabled collector that lived through several intervals, any enabled case, an env route that overrides or replaces the file, or a file route that disables.',
     "assumptions": TRUST,
     "units": [
@@ -225,7 +228,7 @@ PROPS["C06"] = {
 PROPS["C15"] = {
     "level": "exploration",
     "technique": "property-based testing (rapid): random policy sets x API call sequences on a started server; exact-match policy model as oracle, state digest before/after denied calls, sentinel publishes",
-    "level_text": "on a started single-node server with ACLs on (real casbin enforcer, repository model.conf, generated policy CSV reloaded by a real SIGHUP): sequences of calls of every client API method by two clients against an exact-match policy model; a denied call must return an error (PERMISSION_DENIED async error for PublishAsync) and leave the state digest (streams, paused/read-only flags, every partition's messages, cursors, existing group subscription) unchanged - publishes are followed by an authorised AckPolicy-ALL sentinel on the same connection; an allowed call must not be refused for authorisation; plus the configuration route tls.client.auth(z).enabled",
+    "level_text": "on a started single-node server with ACLs on (real casbin enforcer, repository model.conf, generated policy CSV reloaded by a real SIGHUP): sequences of calls of every client API method by two clients and by a caller without identity (no verified certificate: its context carries no client id, it is allowed nothing) against an exact-match policy model; a denied call must return an error (PERMISSION_DENIED async error for PublishAsync) and leave the state digest (streams, paused/read-only flags, every partition's messages, cursors, existing group subscription) unchanged - publishes are followed by an authorised AckPolicy-ALL sentinel on the same connection; an allowed call must not be refused for authorisation; plus the configuration route tls.client.auth(z).enabled",
     "level_note": 'the client id is put into the context exactly as addUserContext does (TLS handshake not exercised); consumer-group RPCs have no documented policy action and are only exercised; SetCursor needs SetCursor on the stream and Publish on __cursors (documented)',
     "rule": 'rapid draws a policy subset of 2 clients x 5 resources x 11 actions and 3-14 steps (19 call kinds incl. resume-on-subscribe, group take-over, publish to a paused stream, async batches; policy reloads). Non-trivial = a denied call whose handler has a side effect before/without the check, or any denied call after a reload.',
     "assumptions": TRUST,
